@@ -614,3 +614,143 @@ class ShrinkGuard:
 
         IN = forward(self.g, frozenset({"loaded"}) if loaded else frozenset(), transfer, lambda a, b: a & b, bottom=BOTTOM)
         return any(n in IN for n in self.stores_new())
+
+
+# ====================================================================== C07.REGEN
+class RegenGuard:
+    """Can a geometry getter REPLACE a geometry that exists (in the cache or on file) by one it generates?
+
+    Scenario: the stored array exists and is EMPTY (what a removal of every cell leaves) — the one content a getter is tempted
+    to confuse with 'missing'.  Must-facts `present:<path>` (path: self._<geom> or a local): the value at that path is the
+    existing array (the cache in the in-session scenario; whatever a workspace fetch returned; copies of those).  The tests
+    `<path> is None`, the emptiness tests (`len(p) == 0`, `p.size`, `not len(p)`, `p.shape[0] < 1` ...) and `self.on_file` are
+    decided, contradicted edges are not followed.  A store into self.<geom> / self._<geom> of a value that is neither the
+    existing array nor None, on a path on which the existing array was in the cache or has been fetched (`had`), is the violation.
+    Paths are kept apart (a set of alternative fact sets per node), so the branch that builds cells from user-set parts without
+    ever looking at the file does not blur the branch that fetched."""
+
+    def __init__(self, fn, geom):
+        from ..normalize import single_assignments
+
+        self.fn, self.node, self.geom = fn, fn.node, geom
+        self.g = CFG(self.node)
+        self.single = single_assignments(self.node)
+
+    def path(self, e):
+        if isinstance(e, ast.Name):
+            return e.id
+        if unparse(e) == f"self._{self.geom}":
+            return "cache"
+        if isinstance(e, ast.Call) and fname(e) == "getattr" and len(e.args) >= 2 and unparse(e.args[0]) == "self" \
+                and isinstance(e.args[1], ast.Constant) and e.args[1].value == f"_{self.geom}":
+            return "cache"
+        return None
+
+    @staticmethod
+    def fetches(e):
+        return any(isinstance(c, ast.Call) and isinstance(c.func, ast.Attribute) and c.func.attr.startswith("fetch") for c in ast.walk(e))
+
+    def present(self, e, st):
+        p = self.path(e)
+        return p is not None and f"present:{p}" in st
+
+    def size_of(self, e, st):
+        """e is the number of rows / elements of an existing (empty) array"""
+        if isinstance(e, ast.Call) and fname(e) in ("len", "np.size", "numpy.size") and len(e.args) == 1:
+            return self.present(e.args[0], st)
+        if isinstance(e, ast.Attribute) and e.attr == "size":
+            return self.present(e.value, st)
+        if isinstance(e, ast.Subscript) and isinstance(e.value, ast.Attribute) and e.value.attr == "shape" and unparse(e.slice) == "0":
+            return self.present(e.value.value, st)
+        return False
+
+    def atom(self, e, st):
+        if self.size_of(e, st):
+            return False  # 0 rows: falsy
+        if isinstance(e, ast.Compare) and len(e.ops) == 1:
+            a, b, op = e.left, e.comparators[0], type(e.ops[0])
+            if op in (ast.Is, ast.IsNot, ast.Eq, ast.NotEq):
+                for x, y in ((a, b), (b, a)):
+                    if isinstance(y, ast.Constant) and y.value is None:
+                        p = self.path(x)
+                        if p is not None and f"present:{p}" in st:
+                            return op in (ast.IsNot, ast.NotEq)
+                        if p is not None and f"absent:{p}" in st:
+                            return op in (ast.Is, ast.Eq)
+            flip = {ast.Lt: ast.Gt, ast.LtE: ast.GtE, ast.Gt: ast.Lt, ast.GtE: ast.LtE, ast.Eq: ast.Eq, ast.NotEq: ast.NotEq}
+            if self.size_of(b, st) and op in flip:
+                a, b, op = b, a, flip[op]
+            if self.size_of(a, st) and isinstance(b, ast.Constant) and isinstance(b.value, (int, float)) and not isinstance(b.value, bool) and op in flip:
+                return {ast.Lt: 0 < b.value, ast.LtE: 0 <= b.value, ast.Gt: 0 > b.value, ast.GtE: 0 >= b.value, ast.Eq: 0 == b.value, ast.NotEq: 0 != b.value}[op]
+        if unparse(e) == "self.on_file":
+            return True
+        return None
+
+    def truth(self, t, st):
+        from ..normalize import expanded
+
+        return tv3(t, lambda a: self.atom(expanded(a, self.node, {k: v for k, v in self.single.items() if not self.fetches(v)}), st))
+
+    def targets(self, s):
+        """[(path | 'public', value)] bindings of a statement that matter: cache / public setter / locals"""
+        out = []
+        if isinstance(s, (ast.Assign, ast.AnnAssign)) and s.value is not None:
+            for t in (s.targets if isinstance(s, ast.Assign) else [s.target]):
+                if unparse(t) == f"self.{self.geom}":
+                    out.append(("public", s.value))
+                elif self.path(t) is not None and isinstance(t, (ast.Name, ast.Attribute)):
+                    out.append((self.path(t), s.value))
+        return out
+
+    def existing(self, v, st):
+        return self.fetches(v) or self.present(v, st)
+
+    def transfer(self, n, st):
+        if n.kind == "test":
+            v = self.truth(n.ast, st)
+            return {"true": BOTTOM if v is False else st, "false": BOTTOM if v is True else st, None: st}
+        if n.kind != "stmt":
+            return st
+        pre = st
+        for p, v in self.targets(n.ast):
+            if p == "public":
+                p = "cache"
+            st = frozenset(f for f in st if ":" not in f or f.split(":", 1)[1] != p)
+            if self.existing(v, pre):
+                st = st | {f"present:{p}"} | ({"had"} if self.fetches(v) else set())
+            elif isinstance(v, ast.Constant) and v.value is None:
+                st = st | {f"absent:{p}"}
+        return st
+
+    def transfer_set(self, n, alts):
+        """the same over a SET of alternative fact sets (one per way of reaching the node): facts of different paths are not merged"""
+        if n.kind == "test":
+            t, f = set(), set()
+            for st in alts:
+                r = self.transfer(n, st)
+                if r["true"] is not BOTTOM:
+                    t.add(r["true"])
+                if r["false"] is not BOTTOM:
+                    f.add(r["false"])
+            return {"true": frozenset(t) if t else BOTTOM, "false": frozenset(f) if f else BOTTOM, None: alts}
+        return frozenset(self.transfer(n, st) for st in alts)
+
+    def violations(self):
+        """([(line, scenario)], has a fetch?) : generated stores that overwrite an existing geometry on some path"""
+        out = []
+        has_fetch = any(self.fetches(s) for s in ast.walk(self.node) if isinstance(s, ast.Assign))
+        for scen, init in (("cached", frozenset({"present:cache", "had"})), ("on file", frozenset({"absent:cache"}))):
+            if scen == "on file" and not has_fetch:
+                continue
+            IN = forward(self.g, frozenset({init}), self.transfer_set, lambda a, b: a | b, bottom=BOTTOM)
+            for n in self.g.nodes:
+                if n not in IN or n.kind != "stmt":
+                    continue
+                for p, v in self.targets(n.ast):
+                    if p not in ("public", "cache"):
+                        continue
+                    for st in IN[n]:
+                        generated = not self.existing(v, st) and not (isinstance(v, ast.Constant) and v.value is None)
+                        if generated and "had" in st:
+                            out.append((n.lineno, scen))
+        return sorted(set(out)), has_fetch
